@@ -111,6 +111,12 @@ def evaluate(mod, spec):
         return "violation", v
     except (KeyboardInterrupt, SystemExit):
         raise
+    except MemoryError:
+        # the per-process memory cap (limit_memory) was hit: the case is too large for this harness -> inconclusive, never a violation
+        import gc
+
+        gc.collect()
+        return "rejected", "memory limit of the harness reached"
     except RecursionError as e:
         origin, where = _origin(e.__traceback__)
         if origin == "sut":
@@ -233,6 +239,23 @@ def setup_env():
         sys.path.insert(0, ROOT)
 
 
+def limit_memory():
+    """Cap the data segment of this process (PV_MEM_GB, default 10 GB) so that one oversized generated case raises MemoryError (counted as
+    a rejected case) instead of driving the machine into the OOM killer, which would take a worker down and lose the whole run."""
+    try:
+        import resource
+
+        gb = float(os.environ.get("PV_MEM_GB", "10"))
+        if gb > 0:
+            lim = int(gb * 2**30)
+            soft, hard = resource.getrlimit(resource.RLIMIT_DATA)
+            if hard != resource.RLIM_INFINITY:
+                lim = min(lim, hard)
+            resource.setrlimit(resource.RLIMIT_DATA, (lim, hard))
+    except Exception:  # noqa: BLE001  (platform without RLIMIT_DATA: run uncapped)
+        pass
+
+
 def load(pid):
     setup_env()
     pdir = os.path.join(ROOT, "pv", "props")
@@ -244,6 +267,7 @@ def load(pid):
 
 def run_shard(args):
     pid, tier, seed, shard, n_examples, do_enum = args
+    limit_memory()
     mod = load(pid)
     import hypothesis
     from hypothesis import HealthCheck, Phase, given, settings
@@ -447,10 +471,12 @@ def run_check(pid, tier, seed):
         dumps = [run_shard(jobs[0])]
     else:
         import multiprocessing as mp
+        from concurrent.futures import ProcessPoolExecutor
 
+        # an executor (unlike mp.Pool) fails with BrokenProcessPool when a worker dies, instead of waiting forever
         ctx = mp.get_context("spawn")
-        with ctx.Pool(min(shards, os.cpu_count() or 1)) as pool:
-            dumps = pool.map(run_shard, jobs)
+        with ProcessPoolExecutor(min(shards, os.cpu_count() or 1), mp_context=ctx) as pool:
+            dumps = list(pool.map(run_shard, jobs))
     st = merge(dumps + [replay_stats.dump()])
 
     n_err = getattr(st, "_n_errors", 0)
